@@ -94,6 +94,21 @@ def step (st : Unit) (j : Json) : Unit × Json :=
           | "parabola" => surfaceOnRaster .parabola θ nx ny
           | _ => surfaceOnRaster .bezierTwo θ nx ny
         pure ((), okJson (Json.arr (out.map ratToJson).toArray))
+    | "store_origins" =>
+        -- the origin_measured / origin_fitted setters (Model/Origin.lean `storeOrigins`) on integer pairs
+        let n ← natField j "n"
+        let sc ← natField j "sc"
+        let form ← strField j "form"
+        let vals ← intList (← field j "data")
+        let pairs : List (Int × Int) := (pieces 2 vals).map (fun l => (l.getD 0 0, l.getD 1 0))
+        if sc == 0 then throw "sc=0" else
+        let inp : OriginInput Int := match form with
+          | "grid" => .grid (pieces sc pairs)
+          | "pair" => .pair (pairs.headD (0, 0))
+          | _ => .flat pairs
+        pure ((), okJson (match storeOrigins n inp with
+          | some l => Json.arr (l.map (fun p => Json.arr #[Json.num (JsonNumber.fromInt p.1), Json.num (JsonNumber.fromInt p.2)])).toArray
+          | none => Json.null))
     | "shift" =>
         let h ← natField j "h"
         let w ← natField j "w"
